@@ -39,7 +39,7 @@ CLASSES = {
                           ends=[(0, rmin), (b_, rmax)]),
     "PowerRTransform": dict(args=[rmin, rmax, b_], extra=[b_ > 0], dom=[x > 0], cod=[r > rmin], sigma=1,
                             ends=[(0, rmin), (b_, rmax)]),
-    "HyperbolicRTransform": dict(args=[a_, b_], extra=[], dom=[x > 0, 1 - b_ * x > 0], cod=[r > 0], sigma=1, array_only=True,
+    "HyperbolicRTransform": dict(args=[a_, b_], extra=[], dom=[x > 0, 1 - b_ * x > 0], cod=[r > 0], sigma=1,
                                  ends=[(0, 0)]),
     "MultiExpRTransform": dict(args=[rmin, Rp], extra=[Rp > 0], dom=[x > -1, x < 1], cod=[r > rmin], sigma=-1,
                                ends=[(1, rmin)]),
